@@ -11,6 +11,11 @@ different shifts, in and against text order, seconds and milliseconds); every sh
 onset + delay.  Part 'spelling': the tags Def, Onset, Offset, Delay, Duration in lower, upper and mixed case (HED tags
 are case-insensitive) - same expected table.
 
+Part 'fine' (rt/c20_fine.py): onset texts with many decimals (sample index / 300 Hz and / 1024 Hz with 10 decimals,
+1e-7 steps, one-decimal values), rows that share a time point exactly / within the documented 1e-9 / 1e-7 apart, at
+which Onset and Duration processes start, and several ongoing processes whose content is textually identical; the
+expectation uses exact arithmetic on the onset texts and compares contexts as multisets (one entry per process).
+
 Processes are recognised in the reported strings by their definition name (Def/<name>) or, for Duration processes, by a
 unique Label/d<k> inside their content group; plain annotation by a unique Label/r<row>.
 """
@@ -19,6 +24,7 @@ import multiprocessing
 import re
 
 from rt.common import Workload, main, schema
+from rt import c20_fine
 
 # Entries of later rows that share an onset with an earlier row: judged (own narrow clause) or not.  The statement says
 # such rows act as ONE time point whose context is "started strictly earlier"; the code gives them the processes
@@ -416,6 +422,10 @@ def _worker(chunk):
     schema()
     out = []
     for part, rows, style in chunk:
+        if part == "fine":
+            for clause, obs, exp in c20_fine.check_fine(rows, schema()):
+                out.append((clause, {"part": part, "hist": rows, "file": [list(r) for r in c20_fine.file_of(rows)]}, obs, exp))
+            continue
         for clause, obs, exp in judge(rows, style):
             out.append((clause, {"part": part, "rows": _rows_json(rows), "style": style, "file": _file_json(rows, style)},
                         obs, exp))
@@ -454,7 +464,9 @@ def run(w: Workload):
               "point) are dropped.  Non-trivial = at least one process starts.  Reversed files (n<=3, >=2 distinct times) "
               "must be rejected.  several: histories with one row carrying 2-3 temporal groups with their own Delay shifts; "
               "spelling: respelled (lower/upper/mixed case reserved tags) copies of short histories; both judged by the "
-              "same interval computation.")
+              "same interval computation.  fine: histories of 2-5 rows over 11 cells whose contents repeat x gaps {same onset text, "
+              "+1e-10, +1e-7, next / next but one grid point} x 5 clocks of many-decimal onset texts (every valid 2-row history, "
+              "seeded samples of longer ones); expectation by exact rational arithmetic, contexts compared as multisets.")
     hist = list(gen_histories(w.quick))
     n_un = 0
     for rows in hist:
@@ -468,14 +480,23 @@ def run(w: Workload):
         for rows, style in lst:
             w.case((part, repr(rows), style), nontrivial=nontrivial(rows),
                    sample={"file": _file_json(rows, style), "spelling": STYLES[style]})
+    fine = list(c20_fine.gen_fine(w.quick, w.seed))
+    n_ident = n_shared = 0
+    for h in fine:
+        d = c20_fine.describe(h)
+        n_ident += d["identical_ongoing"]
+        n_shared += d["rows_share_start_point"]
+        w.case(("fine", repr(h)), nontrivial=c20_fine.nontrivial(h), sample={"file": [list(r) for r in c20_fine.file_of(h)]})
     work = [("contexts", rows, 0) for rows in hist] + [("several", r, st) for r, st in several] \
-        + [("spelling", r, st) for r, st in spelled]
+        + [("spelling", r, st) for r, st in spelled] + [("fine", h, 0) for h in fine]
     chunks = [work[i:i + 100] for i in range(0, len(work), 100)]
     records = []
     with multiprocessing.Pool(min(14, max(1, multiprocessing.cpu_count() - 2))) as pool:
         for out in pool.imap(_worker, chunks):
             records.extend(out)
     def _simple_first(r):     # stored (capped) failures: fewest rows, no Delay, Onset before Duration
+        if "hist" in r[1]:
+            return (0, len(r[1]["hist"]["rows"]), 0, repr(r[1]["hist"]))
         rows = r[1]["rows"]
         delayed = sum(1 for _, c in rows for _, g in atoms(c) if delay_of(g) is not None)
         return (delayed, len(rows), sum(g[0] == "dur" for _, c in rows for _, g in atoms(c)), repr(rows))
@@ -494,13 +515,23 @@ def run(w: Workload):
            bound="Def/Onset/Offset/Delay/Duration in lower, upper and mixed case: every valid 1-2 row history over the 22-cell "
                  "alphabet with a temporal group (all three spellings); %s valid 3-row history over the 10-cell alphabet with "
                  "a Delay (one spelling, rotating)" % ("every second" if w.quick else "every"), exhaustive=True)
+    w.part("fine", cases=len(fine),
+           bound="onset texts from 5 clocks (300 Hz aligned / irregular, 1024 Hz, 1e-7 steps, one decimal) x gaps {same text, "
+                 "+1e-10, +1e-7, next, next but one grid point} x 11 cells (plain, Duration 3 s / 1 s / 0.2 s / 1500 ms with "
+                 "the same content, two Durations with the same content in one row, Onsets of two definitions with the same "
+                 "inner group, Onset without group, Offsets): every valid 2-row history (%s), seeded samples of 3-5 row "
+                 "histories; %d histories have a time point with >= 2 ongoing processes of identical text, %d have several rows "
+                 "sharing the time point at which a process starts"
+                 % ("two clocks each" if w.quick else "all clocks", n_ident, n_shared), exhaustive=False)
     w.part("unordered", cases=n_un, bound="the reversed file of every history with <=3 rows and >=2 distinct onsets",
            exhaustive=True)
     w.exhaustive = True
     w.assumptions += [
         "processes are identified in base/context strings by Def/<name> or the unique Label/d<k> of a Duration group; "
         "the exact text of a process (e.g. a Delay tag left inside it) is not judged",
-        "all times and durations are dyadic (0.5 steps), so float addition is exact (floats are reals)",
+        "parts contexts/several/spelling: all times and durations are dyadic (0.5 steps), so float addition is exact; part "
+        "fine: expectation by exact rational arithmetic on the onset texts; onsets closer than the documented 1e-9 are one "
+        "time point (only 0 / n*1e-10 / >= 1e-7 distances are generated, between rows and between a Duration end and a row)",
         "entries that share an onset are compared as one time point: base and remaining annotation as the union over "
         "the entries, context at the first entry; the later entries are judged by their own narrow clause",
     ]
@@ -509,11 +540,18 @@ def run(w: Workload):
         "Inset groups, invalid files (unmatched Offset -> KeyError), onsets that are not numbers",
         "more than one temporal group per row other than the listed several-group cells; more than two definition names",
         "letter case of unit names; Delay units other than s and ms (rt.c07)",
+        "part fine: no Delay groups; two textually identical groups in ONE row / time point are not generated (not valid HED: "
+        "TAG_EXPRESSION_REPEATED) - identical content in one row comes from two Duration groups of different length; "
+        "distances between 1e-9 and 1e-7 (rows, or a Duration end and a row) are not generated",
     ]
 
 
 def replay(w: Workload, case: dict):
     inp = case["input"]
+    if inp.get("part") == "fine":
+        for clause, obs, exp in c20_fine.check_fine(inp["hist"], schema()):
+            w.fail(clause, inp, observed=obs, expected=exp)
+        return
     rows = _rows_from_json(inp["rows"])
     fails = check_unordered(rows) if inp.get("part") == "unordered" else judge(rows, int(inp.get("style") or 0))
     for clause, obs, exp in fails:
